@@ -1842,8 +1842,25 @@ impl PhysicalPlanner {
                         return Ok(Arc::new(exec));
                     }
                 }
-                // Not cached, pass through to input
-                self.create_physical_plan_inner(&node.input)
+                // Not cached: the input's rows ARE the alias's rows, but its columns
+                // must be known under the alias. A scan already carries the alias in
+                // its own schema; a derived table's projection exposes bare select-list
+                // names, and two derived tables with the same column names then collide
+                // in a join (`b.c0` resolved to `a.c0`: physical columns are found by
+                // name). Rename positionally whenever the names differ.
+                let input = self.create_physical_plan_inner(&node.input)?;
+                let want = plan_schema_to_arrow(&node.schema);
+                let have = input.schema();
+                let differs = have.fields().len() == want.fields().len()
+                    && have
+                        .fields()
+                        .iter()
+                        .zip(want.fields())
+                        .any(|(h, w)| h.name() != w.name());
+                if differs {
+                    return Ok(Arc::new(ProjectExec::rename(input, &want)));
+                }
+                Ok(input)
             }
 
             LogicalPlan::EmptyRelation(node) => {
